@@ -93,6 +93,7 @@ public:
     double deadline = 1e18;
     bool replaying = false;
     uint64_t idx = 0;
+    uint64_t deadline_tick = 0;
     std::unordered_set<uint64_t> states, outcomes;
     std::vector<std::string> samples;
     std::string cur;
@@ -106,7 +107,7 @@ public:
         uint64_t i = idx++;
         if (replaying) return true;
         if ((int)(i % (uint64_t)nworkers) != worker || i < start_idx) return false;
-        if ((i & 0xff) == 0 && wall() > deadline) g_wshm->timed_out = 1;
+        if ((++deadline_tick & 0x3ff) == 0 && wall() > deadline) g_wshm->timed_out = 1;  // every worker watches the deadline itself
         if (g_wshm->timed_out) return false;
         return true;
     }
